@@ -64,20 +64,39 @@ func vfSameSnap(a, b vfSnap) {
 	}
 }
 
-func vfRenderFormat(t tabular.Table, f int) (string, error) {
-	switch f {
-	case 0:
-		return csv.Render(t)
-	case 1:
-		return json.Render(t)
-	case 2:
-		return markdown.Render(t)
-	case 3:
-		return Render(t, "html")
+// vfRenderers keeps one renderer object per format for a table, created on first use and reused for
+// every later render (odd formats) or created afresh each time (even formats).
+type vfRenderers struct {
+	t    tabular.Table
+	kept map[int]RenderTable
+}
+
+func (r *vfRenderers) render(f int) (string, error) {
+	mk := func() RenderTable {
+		switch f {
+		case 0:
+			return csv.Wrap(r.t)
+		case 1:
+			return json.Wrap(r.t)
+		case 2:
+			return markdown.Wrap(r.t)
+		case 3:
+			return Wrap(r.t, "html")
+		}
+		tt := texttable.Wrap(r.t)
+		tt.SetDecorationNamed(vfDecoNames[f-4])
+		return tt
 	}
-	tt := texttable.Wrap(t)
-	tt.SetDecorationNamed(vfDecoNames[f-4])
-	return tt.Render()
+	if f%2 == 0 {
+		return mk().Render()
+	}
+	if r.kept == nil {
+		r.kept = map[int]RenderTable{}
+	}
+	if r.kept[f] == nil {
+		r.kept[f] = mk()
+	}
+	return r.kept[f].Render()
 }
 
 // VerifC14_repeat: rendering in any order of formats and decorations yields, per format, the bytes
@@ -100,17 +119,38 @@ func VerifC14_repeat() {
 	c, _ := t.CellAt(tabular.CellLocation{Row: 1, Column: 1})
 	c.SetProperty(key, 5)
 	before := vfSnapshot(t, key)
-	nf := 4 + 3 // csv, json, markdown, html, three decorations (quick)
+	nf := 4 + 2 // csv, json, markdown, html, two decorations (quick)
 	if vfTier() == 1 {
 		nf = 4 + len(vfDecoNames)
 	}
 	first := make([]string, nf)
 	firstErr := make([]bool, nf)
 	seen := make([]bool, nf)
+	// a second, different table rendered in between must not influence the first one's output
+	other := tabular.New()
+	other.AddHeaders("other")
+	other.AddRowItems("zzz")
+	other.AddRowItems("yyy")
+	rs, ro := &vfRenderers{t: t}, &vfRenderers{t: other}
+	late := &vfUserKey{2}
 	n := 1 + vfChoice("n", maxLen)
 	for i := 0; i < n; i++ {
 		f := vfChoice(vfName("f", i), nf)
-		out, err := vfRenderFormat(t, f)
+		if i >= 1 {
+			ro.render(f)
+			ro.render(3)
+		}
+		if i == 1 && vfChoice("late-property", 2) == 1 {
+			// a user property set on a cell after it has been rendered (ie on top of the renderers' own)
+			c.SetProperty(late, 6)
+			before = vfSnapshot(t, key)
+			vfAssert(c.GetProperty(late) == 6, "late-property-set")
+			vfTag("property-set-between-renders")
+		}
+		out, err := rs.render(f)
+		if i >= 1 && vfChoice("late-property", 2) == 1 {
+			vfAssert(c.GetProperty(late) == 6, "user-properties-unchanged")
+		}
 		if seen[f] {
 			vfAssert(out == first[f], "same-bytes-as-first-render")
 			vfAssert((err != nil) == firstErr[f], "same-error-status-as-first-render")
@@ -123,7 +163,7 @@ func VerifC14_repeat() {
 	// and once more every format already rendered
 	for f := 0; f < nf; f++ {
 		if seen[f] {
-			out, _ := vfRenderFormat(t, f)
+			out, _ := rs.render(f)
 			vfAssert(out == first[f], "same-bytes-as-first-render")
 		}
 	}
